@@ -86,10 +86,11 @@ def head_choices(positions, step, max_heads):
     return "{" + ", ".join(out) + "}"
 
 
-def fs_model(consts, invariants=(), dump=None, workers=4, timeout=900, coverage=True):
+def fs_model(consts, invariants=(), dump=None, workers=4, timeout=900, coverage=True, continue_=False):
     d, mod, cfg = core.write_model("FilterStream", consts, invariants=invariants, seq_consts=("HeadChoices",))
     dot = os.path.join(d, "graph.dot") if dump else None
-    r = core.run_tlc(mod, cfg, workers=workers, cwd=d, timeout=timeout, dump=dot, coverage=coverage and not dump)
+    r = core.run_tlc(mod, cfg, workers=workers, cwd=d, timeout=timeout, dump=dot, coverage=coverage and not dump,
+                     continue_=continue_)
     return r, dot
 
 
